@@ -463,7 +463,7 @@ def build():
     fh_setitem(p)
 
     wfc = Contract(
-        MEM, "MemorizedFunc._write_func_code", props=["C12", "C02", "C05"], ghost=GHOST, globals=glob, setup=wfc_setup,
+        MEM, "MemorizedFunc._write_func_code", props=["C12", "C02", "C05", "C11"], ghost=GHOST, globals=glob, setup=wfc_setup,
         params=dict(self=mfunc(), func_code=Src, first_line=INT),
         requires=["CODESTATE >= 0 and CODESTATE <= 2", "no_entries()", "func_code is CURSRC and first_line == CURLINE",
                   ],
@@ -498,7 +498,7 @@ def build():
 
     # ------------------------------------------------------------------ _check_previous_func_code
     cpfc = Contract(
-        MEM, "MemorizedFunc._check_previous_func_code", props=["C12", "C02", "C05", "C06"], ghost=GHOST, globals=glob, setup=setup,
+        MEM, "MemorizedFunc._check_previous_func_code", props=["C12", "C02", "C05", "C06", "C11"], ghost=GHOST, globals=glob, setup=setup,
         params=dict(self=mfunc(), stacklevel=INT),
         requires=PRE,
         modifies=["ghost:CODESTATE", "ghost:DISKSRC", "ghost:DISKLINE", "ghost:TABLE_HIT", "ghost:HAS", "ghost:VAL"],
@@ -710,9 +710,12 @@ def build():
     # written through one Memory location validates a stale code file in another one
     p.add(Contract(
         MEM, "MemorizedFunc._hash_func", props=["C12"], globals=fglob, setup=fci_setup,
-        params=dict(self=mfunc(func=OpaqueOf("userfunc", __name__=STR, __code__=OpaqueOf("code")), store_backend=OpaqueOf("storebackend", location=OpaqueOf("location")))),
+        params=dict(self=mfunc(func=OpaqueOf("userfunc", __name__=STR, __code__=OpaqueOf("code", co_firstlineno=INT, co_name=STR, co_filename=STR)), store_backend=OpaqueOf("storebackend", location=OpaqueOf("location")))),
         ensures={"key_tells_code_objects_apart": "any_is(result, hash_of(self.func.__code__))",
-                 "key_tells_stores_apart": "any_is(result, self.store_backend.location)"},
+                 "key_tells_stores_apart": "any_is(result, self.store_backend.location)",
+                 # the interface _write_func_code relies on when it looks for OTHER live functions filed under the same identifier in the
+                 # same location (`other_hash[-2:] == (location, func_id)`): the key ENDS with exactly these two
+                 "key_ends_with_location_and_identifier": "result[-2] is self.store_backend.location and result[-1] is self.func_id"},
     ))
     p.models["builtin:hash"] = lambda i, a, k: Opaque("hashof", None, of=a[0]) if not isinstance(a[0], (int, str, bytes, tuple)) else hash(a[0])
     p.spec_funcs["hash_of"] = lambda interp, o: o
